@@ -4,7 +4,9 @@
    (0 id shape) leaf | (1 t params) range | (2 t params) mask | (3 t ((name idx)..)) index |
    (4 t ((pos name)..)) expansion | (5 t names) rename | (6 t names) reverse | (7 t names) access |
    (8 t names) transpose | (9 (t..) pos name kind) stack | (10 (t..) name kind) chain |
-   (11 t kind) Box/&mut/erased | (12 id rows cols n0 n1) matrix-backed;
+   (11 t kind) Box<S> / &mut S / erased again / RecordTensor / &S (kind 0..4; below a kind-4 wrapper
+   everything is read-only: Box<dyn TensorRef> sources, no writes) | (12 id rows cols n0 n1)
+   matrix-backed; stack / chain over an EMPTY array of sources is a constructor panic;
    params = (0 strict ((name start len)..)) | (1 strict (()|((start len))..)).
    Exhaustive part: every single adaptor over every shape with D<=2 (lengths<=3) and every
    parameter from the boundary alphabet {0,1,2,3,4,MAX} (reduced alphabet for D=3), every probe in
@@ -186,7 +188,9 @@ def pdims(t):
         return 2
     if tag in (9, 10):
         ds = [pdims(x) for x in t[1]]
-        if not ds or any(d is None or d != ds[0] for d in ds):
+        if not ds:
+            return 0          # an empty array of sources: the constructor refuses (any dimensionality)
+        if any(d is None or d != ds[0] for d in ds):
             return None
         return ds[0] + 1 if tag == 9 else ds[0]
     d = pdims(t[1])
@@ -264,10 +268,31 @@ def renumber(t, counter):
     return [t[0], renumber(t[1], counter)] + t[2:]
 
 
+def is_shared(t):
+    """the term has a shared-reference source `&S` (wrapper kind 4) somewhere: read-only"""
+    if t[0] in (0, 12):
+        return False
+    if t[0] in (9, 10):
+        return any(is_shared(x) for x in t[1])
+    return (t[0] == 11 and t[2] == 4) or is_shared(t[1])
+
+
+def unify_families(t):
+    """all sources of a stack / chain must be of one family: if one is read-only, share the others"""
+    if t[0] in (0, 12):
+        return t
+    if t[0] in (9, 10):
+        srcs = [unify_families(x) for x in t[1]]
+        if any(is_shared(x) for x in srcs):
+            srcs = [x if is_shared(x) else [11, x, 4] for x in srcs]
+        return [t[0], srcs] + t[2:]
+    return [t[0], unify_families(t[1])] + t[2:]
+
+
 def case(t, rng, full=True, op=1):
     if not well_typed(t):
         return None
-    t = renumber(t, [0])
+    t = renumber(unify_families(t), [0])
     sh = pshape(t)
     if sh is None:
         d = pdims(t)
@@ -275,7 +300,7 @@ def case(t, rng, full=True, op=1):
         writes = []
     else:
         probes = probes_for(sh, rng) if full else probes_for(sh, rng, cap=40)
-        writes = writes_for(sh, rng)
+        writes = [] if is_shared(t) else writes_for(sh, rng)   # nothing is writable through `&S`
     return sx([2, op, t, probes, writes])
 
 
@@ -382,7 +407,7 @@ def single_adaptors(base, shape, rng, alpha, exhaustive):
             yield [tag, base, [names[0]] * D]
             yield [tag, base, [names[1], names[1]] + names[2:]]
     # --- wrappers
-    for kind in (0, 1, 2):
+    for kind in (0, 1, 2, 3, 4):     # Box<S>, &mut S, erased again, RecordTensor, &S
         yield [11, base, kind]
 
 
@@ -516,7 +541,7 @@ def random_term(rng, depth, next_id, want_d=None):
             rng.shuffle(p)
             return [kind, src, p]
         if kind == 11:
-            return [11, src, rng.randrange(3)]
+            return [11, src, rng.randrange(5)]
     return src
 
 
@@ -734,7 +759,7 @@ def gen(tier, rng):
                     nxt.append([8, t, list(p)])
                 nxt.append([5, t, names[1:] + names[:1]])
                 nxt.append([5, t, [n + 3 for n in names]])
-                nxt.append([11, t, rng.randrange(3)])
+                nxt.append([11, t, rng.randrange(5)])
             cap = 250 if quick else 2500
             if len(nxt) > cap:
                 nxt = rng.sample(nxt, cap)
@@ -743,6 +768,40 @@ def gen(tier, rng):
                 if c:
                     yield c
             level = nxt
+    # 7. empty arrays of sources, RecordTensor and shared-reference sources below every adaptor
+    for kind_tag in (9, 10):
+        for pos in (0, 1):
+            for nm in (0, 7):
+                t = [9, [], pos, nm, 0] if kind_tag == 9 else [10, [], nm, 0]
+                c = case(t, rng)
+                if c:
+                    yield c
+                c = case([6, t, []], rng)
+                if c:
+                    yield c
+    wbases = [leaf(1, [2, 3]), leaf(1, [3]), leaf(1, [2, 2, 2]), [12, 1, 2, 3, 0, 1], leaf(1, [])]
+    for base in wbases:
+        for wk in (3, 4):
+            w = [11, base, wk]
+            sh = pshape(w)
+            lst = list(single_adaptors(w, sh, rng, [0, 1, 2, MAXU], False))
+            lst += list(stack_chain(w, sh, rng, [leaf(2, [l + 1 for _, l in sh])]))
+            per_kind = {}
+            for o in lst:
+                per_kind.setdefault(o[0], []).append(o)
+            for kind, lk in per_kind.items():
+                for o in rng.sample(lk, min(len(lk), 40 if quick else 400)):
+                    c = case(o, rng, full=(kind != 4))
+                    if c:
+                        yield c
+                    # and one more adaptor on top of that
+                    so = pshape(o) if well_typed(o) else None
+                    if so is not None and rng.random() < 0.3:
+                        top = list(single_adaptors(o, so, rng, [0, 1, MAXU], False))
+                        for o2 in rng.sample(top, min(len(top), 3)):
+                            c = case(o2, rng, full=False)
+                            if c:
+                                yield c
     # 6. static (non-erased) compositions, op 2
     for t in static_terms(rng, 2500 if quick else 25000):
         c = case(t, rng, full=True, op=2)
